@@ -34,6 +34,13 @@ def build_chain(cs, tier):
     elif cs % 8 == 3:
         from harness.props import c12
         cfg, ops0 = c12.build(cs, valid_only=True)
+    elif cs % 8 == 6:
+        # Rock Ridge relocation present before the parse: deep directories, and deep edits afterwards
+        from harness.props import c08
+        cfg = g.cfg(index=cs, require=lambda c: c.rr is not None and c.level < 4)
+        h = c08.deep_history(g, cfg, cs)
+        ops0 = list(h.ops)
+        h.sess.close()
     else:
         cfg = g.cfg(index=cs)
         h = common.History(cfg, cs, rng.choice(['std', 'grow', 'links', 'names']), max_size=5000)
@@ -74,6 +81,8 @@ def run_chain(cfg, ops0, gens_ops, seed, counters, ngen=None, record=None):
     g2 = Gen(seed + 31, 'churn')
     g2.uniq = 100000
     g2.next_cid = 100000
+    if s.model.rr_moved is not None or any(s.model.depth(d) >= 7 for d in s.model.dirs('iso')):
+        g2.max_depth = 11
     prev = s
     for gi in range(n):
         env.CLOCK.advance(3600 * 24)
